@@ -358,8 +358,8 @@ func c20Run(o *out, input string) {
 		class = "panic"
 	case len(hits) > 0:
 		class, arg = "extra", strings.Join(hits, "&")
-	case status >= 300 && status < 400 && w.Header().Get("Location") != "":
-		loc := w.Header().Get("Location")
+	case status >= 300 && status < 400 && w.Result().Header.Get("Location") != "":
+		loc := w.Result().Header.Get("Location")
 		if q := "?" + c20Query; kind == "getq" && strings.HasSuffix(loc, q) {
 			loc = strings.TrimSuffix(loc, q) // the query must survive a redirect; it is not part of the compared path
 		}
